@@ -209,6 +209,8 @@ func c09Programs(tier string) []c09prog {
 		{"anon-struct-with-slice", "struct{ S []int }", false},
 		// nothing but blank fields: comparable padding, and a blank field that makes the struct incomparable
 		{"anon-struct-blank-only", "struct{ _ int32 }", true}, {"anon-struct-blank-slice-only", "struct{ _ []int }", false},
+		// the "do not compare" marker: a zero-length array of an incomparable element type
+		{"zero-length-func-array", "[0]func()", false},
 		{"anon-struct-blank-and-slice", "struct {\n\t_ int\n\tS []int\n}", false},
 	}
 	type shape struct {
